@@ -261,7 +261,12 @@ pub fn render_lv(l: &Lv, nested: bool) -> String {
         Lv::Splat(inner) => format!("...{}", render_lv(inner, true)),
         Lv::Or(a, b) => format!("({} or {})", render_lv(a, true), render_lv(b, true)),
         Lv::And(a, b) => format!("({} and {})", render_lv(a, true), render_lv(b, true)),
-        Lv::Lit(e) => atom(e),
+        // a literal pattern is written as the literal; any other expression needs `literally`
+        Lv::Lit(e) => match &**e {
+            Ex::Num(NumLit::Int(n)) if *n >= 0 => atom(e),
+            Ex::Str(_) => atom(e),
+            _ => format!("(literally {})", atom(e)),
+        },
         // a builtin operator with two operands is written infix, the way such patterns are used
         // (`h .+ t`, `n + 1`, `a / b`); prepend chains nested to the right and append chains nested
         // to the left are written without inner parentheses (`a .+ b .+ t`, `xs +. y +. z`), so the
